@@ -135,7 +135,8 @@ def run_one(task):
 def evaluate(tasks):
     import concurrent.futures as cf
     import os
-    workers = min(12, os.cpu_count() or 2)
+    from sa.core import workers as _workers
+    workers = _workers(12)
     if len(tasks) < 24:
         return [run_one(t) for t in tasks]
     try:
